@@ -657,6 +657,198 @@ def c10(prop, tier, seed):
 
 
 # ----------------------------------------------------------------------------------------------
+# C09: spec/VecConc.tla (writer / reader critical sections) replayed through the gate + seeded schedules with growth
+# ----------------------------------------------------------------------------------------------
+def vconc_cfg(kind, item, dev, invs, emit):
+    st = lambda xs: "{" + ", ".join('"%s"' % x for x in xs) + "}"
+    lines = ["SPECIFICATION Spec", "CONSTANTS", f'  Kind = "{kind}"', f"  PP = {item.get('pp', 4)}", "  Batches = {" + ", ".join(map(str, item["batches"])) + "}",
+             f"  MaxWrites = {item['maxw']}", "  Readers = {" + ", ".join(str(i) for i in range(1, item.get('readers', 1) + 1)) + "}", f"  MaxReads = {item['maxr']}",
+             f"  ReadOps = {st(item.get('readops', ['len', 'fold']))}", f"  PreLen = {item['prelen']}", f"  Dev = {st(sorted(dev))}", f"  Depth = {item.get('depth', 90)}",
+             f"  HistK = {item.get('histk', 0)}", "VIEW HView", "CONSTRAINT DepthOK", "CHECK_DEADLOCK FALSE"]
+    lines += [f"INVARIANT {i}" for i in invs]
+    if emit:
+        lines.append("INVARIANT Emit")
+    return "\n".join(lines) + "\n"
+
+
+VCONC_INVS = ["ReaderPrefix", "Complete", "Readable"]
+
+
+def vconc_paths(emitted):
+    hs = [json.loads(x) for x in emitted]
+    keyed = {tuple((s[0], s[1], s[3], s[4]) for s in p): p for p in hs}
+    pref = set()
+    for k in keyed:
+        for i in range(1, len(k)):
+            pref.add(k[:i])
+    return [p for k, p in keyed.items() if k not in pref and k]
+
+
+def vconc_item(prop, tier, seed, item, known_ids):
+    out = {"states": 0, "trans": 0, "behaviours": 0, "steps": 0, "nontrivial": 0, "ops_checked": 0, "cut": 0, "unbound": 0, "unbound_example": None,
+           "segs": {}, "known": {}, "violations": [], "sample": None, "run": None}
+    kind = item["kind"]
+    devs = sorted(known_ids & {"D18"}) if kind == "cmp" else []
+    wd = vlib.scratch_dir("vconc")
+    try:
+        with cf.ThreadPoolExecutor(2) as ex:
+            fd = ex.submit(vlib.run_tlc, "VecConc", vconc_cfg(kind, item, [], VCONC_INVS, False), os.path.join(wd, "design"), 4, 1800)
+            fa = ex.submit(vlib.run_tlc, "VecConc", vconc_cfg(kind, item, devs, [], True), os.path.join(wd, "asis"), 4, 1800)
+            d, a = fd.result(), fa.result()
+        if d["violated"]:
+            raise ToolError("VecConc intended design (Dev={}) violates its own invariant: %s" % d["violated"])
+        if a["violated"]:
+            raise ToolError("VecConc as-is run failed: %s" % a["violated"])
+        if not a["distinct"] or not d["distinct"]:
+            raise ToolError("TLC explored nothing (VecConc)")
+        out["states"] = d["distinct"] + a["distinct"]; out["trans"] = d["generated"] + a["generated"]
+        paths = vconc_paths(a["emitted"]["REPLAY"])
+        all_paths = len(paths)
+        cap = item.get("max_paths")
+        if cap and len(paths) > cap:
+            stride = -(-len(paths) // cap)
+            paths = paths[seed % stride::stride]
+        if paths:
+            lp = max(paths, key=len)
+            out["sample"] = ["%d:%s%s" % (s[0], s[1], ("[%s %s]" % (s[3], s[4])) if s[1] == "op" else "") for s in lp]
+        sf = os.path.join(wd, "p.ndjson")
+        vlib.write_ndjson(sf, paths)
+        futs = {}
+        with cf.ThreadPoolExecutor(6) as ex:
+            for fmt in item["formats"]:
+                futs[ex.submit(vlib.run_vh, ["vecconc", "--in", sf, "--format", fmt, "--prelen", str(item["prelen"]), "--pp", str(item.get("pp", 4)),
+                                            "--readers", str(item.get("readers", 1))], 3000)] = fmt
+            for fu in cf.as_completed(futs):
+                fmt = futs[fu]
+                r = fu.result()
+                out["behaviours"] += r["behaviours"]; out["steps"] += r["steps"]; out["nontrivial"] += r["distinct_nontrivial"]
+                out["ops_checked"] += r["operations_checked"]; out["cut"] += r["cut_permitted"]; out["unbound"] += r["unbound"]
+                out["unbound_example"] = out["unbound_example"] or r["unbound_example"]
+                for k, v in r["segments"].items():
+                    out["segs"][k] = out["segs"].get(k, 0) + v
+                for k in r["known"]:
+                    e = out["known"].setdefault(k["dev"], {"count": 0, "history": k["history"]})
+                    e["count"] += k["count"]
+                    if len(k["history"]) < len(e["history"]):
+                        e["history"] = k["history"]
+                for v in r["violations"]:
+                    v.update({"property": prop, "tier": tier, "seed": seed, "kind": "behaviour", "spec": "VecConc", "format": fmt, "prelen": item["prelen"],
+                              "pp": item.get("pp", 4), "readers": item.get("readers", 1), "steps_full": paths[v["behaviour"]]})
+                    out["violations"].append(v)
+        out["run"] = {k: item.get(k) for k in ("kind", "formats", "prelen", "batches", "maxw", "maxr", "readers", "pp")} | \
+                     {"design_states": d["distinct"], "asis_states": a["distinct"], "paths": all_paths, "paths_replayed": len(paths)}
+    finally:
+        shutil.rmtree(wd, ignore_errors=True)
+    return out
+
+
+def vfree(prop, tier, seed):
+    known_ids = vlib.all_known_devs()
+    n = q(tier, 40, 400)
+    tot = {"reads": 0, "writes": 0, "lock_grants": 0, "distinct_schedules": 0, "timeouts": 0}
+    violations, known_seen, runs = [], {}, []
+    fmts = ["bytes", "zerocopy", "pco", "lz4", "zstd"]
+    with cf.ThreadPoolExecutor(5) as ex:
+        futs = {ex.submit(vlib.run_vh, ["vecfree", "--format", fm, "--schedules", str(n), "--seed", str(seed * 10 + i)], 6000): (i, fm) for i, fm in enumerate(fmts)}
+        for fu in cf.as_completed(futs):
+            i, fm = futs[fu]
+            r = fu.result()
+            for k in tot:
+                tot[k] += r[k]
+            runs.append({"format": fm, "reads": r["reads"], "writes": r["writes"], "distinct_schedules": r["distinct_schedules"], "timeouts": r["timeouts"]})
+            for k in r["known"]:
+                e = known_seen.setdefault(k["dev"], {"count": 0, "example": k["example"]})
+                e["count"] += k["count"]
+            for v in r["violations"]:
+                v.update({"property": prop, "tier": tier, "kind": "schedule", "spec": "vecfree", "format": fm, "run_seed": seed * 10 + i, "schedules": n})
+                violations.append(v)
+    known_lines = []
+    for dev, e in sorted(known_seen.items()):
+        if dev in known_ids:
+            ex_ = e["example"] or {}
+            known_lines.append("%s seeded schedule %s %s: %s" % (dev, ex_.get("seed"), ex_.get("thread"), str(ex_.get("what"))[:170]))
+        else:
+            violations.append({"property": prop, "kind": "unlisted-deviation", "dev": dev, "example": e["example"]})
+    return {"tot": tot, "runs": runs, "violations": violations, "known": known_lines, "deviations": {k: v["count"] for k, v in known_seen.items()}}
+
+
+def vconc_plan(tier):
+    cap = q(tier, 3000, None)
+    return [
+        dict(kind="raw", formats=["bytes", "zerocopy"], prelen=1, batches=[1, 2, 3], maxw=2, maxr=q(tier, 2, 3), readers=1, histk=q(tier, 1, 2), max_paths=cap),
+        dict(kind="cmp", formats=["pco", "lz4", "zstd"], prelen=1, batches=[1, 2, 3], maxw=2, maxr=q(tier, 2, 3), readers=1, histk=q(tier, 1, 2), max_paths=cap),
+        dict(kind="cmp", formats=["pco", "lz4"], prelen=q(tier, 3, 5), batches=[1, 4], maxw=2, maxr=2, readers=1, histk=1, max_paths=cap),
+        dict(kind="cmp", formats=["pco"], prelen=0, batches=[1, 2], maxw=q(tier, 2, 3), maxr=2, readers=2, histk=0, max_paths=cap),
+        dict(kind="raw", formats=["bytes"], prelen=0, batches=[1, 2], maxw=q(tier, 2, 3), maxr=2, readers=2, histk=0, max_paths=cap),
+    ]
+
+
+@register("C09")
+def c09(prop, tier, seed):
+    known_ids = vlib.all_known_devs()
+    plan = vconc_plan(tier)
+    with cf.ThreadPoolExecutor(3) as ex:
+        parts = list(ex.map(lambda it: vconc_item(prop, tier, seed, it, known_ids), plan))
+        ffree = ex.submit(vfree, prop, tier, seed)
+        free = ffree.result()
+    states = trans = behaviours = nontrivial = ops_checked = cut = unbound = 0
+    violations, known_seen, runs, samples, segs = [], {}, [], [], {}
+    unbound_example = None
+    for o in parts:
+        states += o["states"]; trans += o["trans"]; behaviours += o["behaviours"]; nontrivial += o["nontrivial"]; ops_checked += o["ops_checked"]
+        cut += o["cut"]; unbound += o["unbound"]; unbound_example = unbound_example or o["unbound_example"]
+        for k, v in o["segs"].items():
+            segs[k] = segs.get(k, 0) + v
+        for dv, e in o["known"].items():
+            e0 = known_seen.setdefault(dv, {"count": 0, "history": e["history"]})
+            e0["count"] += e["count"]
+            if len(e["history"]) < len(e0["history"]):
+                e0["history"] = e["history"]
+        violations += o["violations"]; runs.append(o["run"])
+        if o["sample"] and len(samples) < 2:
+            samples.append(o["sample"])
+    # the model must see D18 (non-vacuity): with the deviation alone the invariants break
+    wd = vlib.scratch_dir("vconcsens")
+    try:
+        r = vlib.run_tlc("VecConc", vconc_cfg("cmp", dict(prelen=1, batches=[1, 2, 3], maxw=1, maxr=2), ["D18"], VCONC_INVS, False), wd, 4, 600)
+        if not r["violated"]:
+            raise ToolError("VecConc with Dev={D18} should violate an invariant")
+        sens = {"D18": r["violated"]}
+        states += r["distinct"]; trans += r["generated"]
+    finally:
+        shutil.rmtree(wd, ignore_errors=True)
+    known_lines = []
+    for dev, e in sorted(known_seen.items()):
+        if all(x in known_ids for x in dev.split("+")):
+            known_lines.append("%s %s" % (dev, " ".join(e["history"])))
+        else:
+            violations.append({"property": prop, "kind": "unlisted-deviation", "dev": dev, "history": e["history"]})
+    if behaviours and unbound * 5 > behaviours:
+        raise ToolError("more than a fifth of the VecConc behaviours could not be bound to the code's lock requests: %s" % unbound_example)
+    violations += free["violations"]
+    known_lines += [k for k in free["known"] if k not in known_lines]
+    cov = {"states": states, "transitions": trans, "traces_validated_against_impl": behaviours + free["tot"]["distinct_schedules"], "samples": samples,
+           "evaluations": ops_checked + free["tot"]["reads"], "distinct_nontrivial": nontrivial + free["tot"]["distinct_schedules"],
+           "rule": "VecConc: TLC enumerates every interleaving (to the bounds) of the writer's write() critical sections (raw: data copy | region length + publication; compressed: plan | "
+                   "decode partial page | data copy | region length | page index + publication, fast and re-encoding paths) with readers' len / fold steps (length load | placement "
+                   "snapshot | mapping guard | page-index guard | one step per closure call); Dev={} must satisfy ReaderPrefix, Complete, Readable; every behaviour of the as-is model is "
+                   "replayed on real vectors (u32, one model element = 1024 real elements, 4 per real page) with the threads driven through the lock gate and the closure pausing at "
+                   "the gate; each len() is followed at once by a read of everything below it, each fold must yield exactly the writer's values; non-trivial = both writer and reader steps. "
+                   "|| vecfree: seeded lock-granular schedules with random batch sizes, region relocation and growth during reads, two readers, all five formats",
+           "runs": runs, "operations_checked": ops_checked, "cut_after_permitted_divergence": cut, "behaviours_not_bound": unbound, "not_bound_example": unbound_example,
+           "segments_replayed": segs, "deviations_taken": {k: v["count"] for k, v in known_seen.items()}, "spec_sensitivity": sens, "free_schedules": {"runs": free["runs"]} | free["tot"] |
+           {"deviations_taken": free["deviations"]}, "exhaustive": tier == "thorough",
+           "replay_sampling": "quick tier replays at most 3000 behaviours per configuration and format (seed-dependent stride); thorough replays all",
+           "checker_cmd": "tlc VecConc.tla ; vh vecconc ; vh vecfree"}
+    return {"level": "model_checking", "coverage": cov,
+            "assumptions": ["model replay: the data region is pre-sized so that every write fits (the model has no region growth); growth / relocation during reads is exercised by the "
+                            "seeded schedules only", "granularity: lock request to lock request, plus one pause per closure call of a fold (per 1024 real elements)",
+                            "readers are read-only clones (len, fold_range_at, collect_one_at); VecReader point readers and iterators share these sources and are not driven separately",
+                            "seeded schedules sample, they do not enumerate; no verdict is taken from elapsed time (stalls are counted as timeouts)"],
+            "violations": violations, "known": known_lines}
+
+
+# ----------------------------------------------------------------------------------------------
 # import matrix: spec/Import.tla (C14)
 # ----------------------------------------------------------------------------------------------
 def import_cfg(formats, depth, dev, invs, emit):
@@ -1287,6 +1479,28 @@ def replay(prop, path):
                              "--threads", str(v.get("workers", 2) + 1)])
         finally:
             shutil.rmtree(wd, ignore_errors=True)
+        if r["violations"]:
+            print(json.dumps(r["violations"][0], indent=1))
+            print(f"VIOLATION property={prop} replay={path}")
+            return 1
+        print("replay: no violation")
+        return 0
+    if v.get("spec") == "VecConc" and v.get("steps_full"):
+        wd = vlib.scratch_dir("replay")
+        try:
+            nd = os.path.join(wd, "one.ndjson")
+            vlib.write_ndjson(nd, [v["steps_full"]])
+            r = vlib.run_vh(["vecconc", "--in", nd, "--format", v["format"], "--prelen", str(v["prelen"]), "--pp", str(v.get("pp", 4)), "--readers", str(v.get("readers", 1))])
+        finally:
+            shutil.rmtree(wd, ignore_errors=True)
+        if r["violations"]:
+            print(json.dumps(r["violations"][0], indent=1))
+            print(f"VIOLATION property={prop} replay={path}")
+            return 1
+        print("replay: no violation")
+        return 0
+    if v.get("spec") == "vecfree":
+        r = vlib.run_vh(["vecfree", "--format", v["format"], "--schedules", str(v["schedules"]), "--seed", str(v["run_seed"])])
         if r["violations"]:
             print(json.dumps(r["violations"][0], indent=1))
             print(f"VIOLATION property={prop} replay={path}")
